@@ -136,7 +136,6 @@ Section Build.
   Lemma J_run1 s x : J s -> step_ok s x -> J (run1 x s).
   Proof.
     intros HJ Hok. destruct x; cbn [run1]; try exact HJ.
-    - (* WriteMd *) destruct (s_md s); exact HJ.
     - (* DamageOut *)
       destruct (s_out s n) as [f0|] eqn:E; [|exact HJ].
       intros m f. cbn [s_out]. unfold upd. destruct (str_eqb_spec m n) as [->|Hne].
@@ -319,7 +318,7 @@ Section Build.
 
   (* ---- the three parts of build_steps ---- *)
 
-  Definition pre : list step := [RmMd; CreateMd; WriteMd (if t_mod t then b_dirouts b else [])].
+  Definition pre : list step := md_steps (if t_mod t then b_dirouts b else []).
   Definition partP (s : st) : list step := pre ++ moves b (all_outs t b) (run pre s) ++ map SetHash (all_outs t b).
   Definition partR : list step := rec_steps b (all_outs t b).
 
@@ -327,7 +326,7 @@ Section Build.
   Proof. unfold build_steps, partP, partR, pre. cbn zeta. rewrite <- !app_assoc. reflexivity. Qed.
 
   Lemma pre_out s : s_out (run pre s) = s_out s.
-  Proof. unfold pre, run. cbn. reflexivity. Qed.
+  Proof. unfold pre, md_steps, run. cbn. reflexivity. Qed.
 
   Lemma J_pre s : J s -> J (run pre s).
   Proof. intros H n f. rewrite pre_out. apply H. Qed.
@@ -335,7 +334,7 @@ Section Build.
   Lemma ok_build_steps s : ok_list s (build_steps t b s).
   Proof.
     unfold build_steps. cbn zeta. fold pre.
-    apply ok_list_app; [apply ok_list_plain; unfold pre; repeat constructor|].
+    apply ok_list_app; [apply ok_list_plain; unfold pre, md_steps; cbn; repeat constructor|].
     apply ok_list_app; [apply ok_moves|].
     apply ok_list_plain. apply Forall_app; split.
     - eapply Forall_impl; [apply keeps_plain|apply keeps_sethash].
@@ -356,7 +355,7 @@ Section Build.
     - pose proof (J_prefix (map SetHash (all_outs t b)) s2 (length (map SetHash (all_outs t b))) HJ2) as H.
       rewrite firstn_all in H. apply H. apply ok_list_plain. eapply Forall_impl; [apply keeps_plain|apply keeps_sethash].
     - intros n Hn. apply Hc, Hin, Hn.
-    - apply Hm. unfold md_full. rewrite Hmd. unfold s1, pre, run. cbn. apply list_eqb_str_refl.
+    - apply Hm. unfold md_full. rewrite Hmd. unfold s1, pre, md_steps, run. cbn. apply list_eqb_str_refl.
   Qed.
 
   Lemma safe_of_complete s : J s -> outs_current s -> md_full t b s = true -> safe s.
@@ -447,11 +446,12 @@ Section Build.
       rewrite (read_outs_ext names _ s None) in H by (intros; reflexivity).
       destruct (read_outs names s None) as [[h|]|] eqn:E; try exact H.
       cbn [negb andb] in *. destruct (t_mod t); cbn [andb] in *; [discriminate|exact H].
-    - (* CreateMd *)
-      intros H. rewrite <- H. symmetry. apply rec_matches_ext; try reflexivity.
-    - (* WriteMd *)
-      destruct (s_md s) as [m|] eqn:E; [|auto]. intros H. rewrite <- H. symmetry.
-      apply rec_matches_ext; try reflexivity. unfold mdrec. rewrite E. reflexivity.
+    - (* MdTmp *) auto.
+    - (* MvMd *)
+      intros H. unfold rec_matches, read_rec in *. cbn [s_md s_fb m_rec] in H.
+      rewrite (read_outs_ext names _ s None) in H by (intros; reflexivity).
+      destruct (read_outs names s None) as [[h|]|] eqn:E; try exact H.
+      cbn [negb andb] in *. destruct (t_mod t); cbn [andb] in *; [discriminate|exact H].
     - (* DamageOut *)
       destruct (s_out s n) as [f|] eqn:E; [|auto]. intros H. rewrite <- H. symmetry.
       unfold rec_matches, read_rec.
@@ -510,7 +510,7 @@ Section Build.
 
   Lemma early_partP s : Forall early (partP s).
   Proof.
-    unfold partP. apply Forall_app; split; [unfold pre; repeat constructor|].
+    unfold partP. apply Forall_app; split; [unfold pre, md_steps; cbn; repeat constructor|].
     apply Forall_app; split; [apply early_moves|].
     apply Forall_forall. intros x Hx. apply in_map_iff in Hx. destruct Hx as [n [<- _]]. exact I.
   Qed.
@@ -545,6 +545,111 @@ Section Build.
     intros H. unfold visible. apply map_ext_in. intros n Hn.
     destruct (H n Hn) as [f [Hf [Hc _]]]. rewrite Hf. cbn. rewrite Hc. reflexivity.
   Qed.
+
+  (* ---- the inductive invariant: whenever the record read by the pre-build check is the current one, the
+          outputs are those of the current tree and the metadata file, if present, is complete ---- *)
+
+  Definition trusted (s : st) : Prop :=
+    J s /\ (in_window t b s = true -> outs_current s /\ (md_exists s = true -> md_full t b s = true)).
+
+  Lemma trusted_safe s : trusted s -> safe s.
+  Proof.
+    intros [HJ Hw]. split; [exact HJ|]. unfold decide, needs.
+    change (rec_matches false t (with_force b false) (declared t) s) with (in_window t b s).
+    destruct (md_exists s) eqn:Em; cbn [negb orb]; [|exact I].
+    destruct (in_window t b s) eqn:Ew; cbn [negb orb]; [|exact I].
+    cbn [with_force b_force].
+    destruct (Hw eq_refl) as [Hc Hm]. specialize (Hm eq_refl).
+    destruct (t_mod t) eqn:Emod; [|auto].
+    pose proof Hm as Hm0. unfold md_full in Hm0. destruct (s_md s) as [[[|d] r]|] eqn:E; try discriminate.
+    match goal with |- context [if ?c then Rebuild else Reuse] => destruct c end; [exact I|split; assumption].
+  Qed.
+
+  Definition gentle (x : step) : Prop :=
+    match x with
+    | RmMd | MdTmp _ | SetHash _ | SetRec _ _ | SetMdRec _ | FbTrunc | FbWrite _ => True
+    | MvMd d => d = (if t_mod t then b_dirouts b else [])
+    | _ => False
+    end.
+
+  Definition Q (s : st) : Prop := outs_current s /\ (md_exists s = true -> md_full t b s = true).
+
+  Lemma keeps_gentle x : keeps x -> gentle x.
+  Proof. destruct x; cbn; intros H; try exact I; contradiction. Qed.
+
+  Lemma keeps_md_exists s x : keeps x -> md_exists (run1 x s) = md_exists s.
+  Proof.
+    destruct x; cbn [keeps]; try contradiction; intros _; cbn [run1]; unfold md_exists;
+      try reflexivity; try (destruct (s_out s n); reflexivity).
+    destruct (s_md s) eqn:E; cbn; rewrite ?E; reflexivity.
+  Qed.
+
+  Lemma gentle_run1 s x : gentle x -> Q s -> Q (run1 x s).
+  Proof.
+    intros Hg [Hc Hm].
+    assert (Hk : keeps x -> Q (run1 x s)).
+    { intros Hk. destruct (keeps_run1 s x Hk) as [H1 H2]. split.
+      - intros n Hn. apply H1, Hc, Hn.
+      - rewrite (keeps_md_exists s x Hk). intros Hex. apply H2, Hm, Hex. }
+    destruct x; cbn [gentle] in Hg; try contradiction; try (apply Hk; exact I).
+    - (* RmMd *) split; [exact Hc|]. cbn. discriminate.
+    - (* MdTmp *) split; assumption.
+    - (* MvMd *) subst dirouts. split; [exact Hc|]. intros _. unfold md_full. cbn. apply list_eqb_str_refl.
+  Qed.
+
+  Lemma gentle_prefix l : forall s k, Forall gentle l -> Q s -> Q (run (firstn k l) s).
+  Proof.
+    induction l as [|x l IH]; intros s k H HQ.
+    - destruct k; exact HQ.
+    - destruct k as [|k]; [exact HQ|]. inversion H as [|? ? Hx Hl]; subst.
+      cbn [firstn]. unfold run; cbn [fold_left]. fold (run (firstn k l) (run1 x s)).
+      apply IH; [exact Hl|apply gentle_run1; assumption].
+  Qed.
+
+  Lemma moves_nil l : forall s, (forall n, In n l -> current s n) -> moves b l s = [].
+  Proof.
+    induction l as [|a l IH]; intros s H; cbn [moves]; [reflexivity|].
+    assert (H0 : move_steps b s a = []).
+    { unfold move_steps. destruct (H a (or_introl eq_refl)) as [f [Hf [_ He]]]. rewrite Hf, He, N.eqb_refl. reflexivity. }
+    rewrite H0. cbn. apply IH. intros n Hn. apply H. right. exact Hn.
+  Qed.
+
+  (* A build killed after ANY number of its steps, started from ANY trusted state (forced or not), leaves a trusted state. *)
+  Lemma crash_trusted s k : trusted s -> trusted (crash k t b s).
+  Proof.
+    intros [HJ Hw]. unfold crash.
+    assert (HJk : J (run (firstn k (build_steps t b s)) s)) by (apply J_prefix; [exact HJ|apply ok_build_steps]).
+    destruct (in_window t b s) eqn:Ew.
+    - (* the record is current: the outputs are, so nothing is moved and every step keeps them *)
+      destruct (Hw eq_refl) as [Hc Hm].
+      assert (Hmv : moves b (all_outs t b) (run pre s) = []).
+      { apply moves_nil. intros n Hn. destruct (Hc n Hn) as [f Hf]. exists f. rewrite pre_out. exact Hf. }
+      assert (HQ : Q (run (firstn k (build_steps t b s)) s)).
+      { apply gentle_prefix; [|split; assumption].
+        unfold build_steps. cbn zeta. fold pre. rewrite Hmv. cbn [app].
+        apply Forall_app; split; [unfold pre, md_steps; cbn; repeat constructor|].
+        apply Forall_app; split.
+        - eapply Forall_impl; [apply keeps_gentle|apply keeps_sethash].
+        - eapply Forall_impl; [apply keeps_gentle|apply keeps_rec_steps]. }
+      split; [exact HJk|]. intros _. exact HQ.
+    - (* the record is stale: it stays stale until everything is in place *)
+      revert HJk. rewrite build_steps_split.
+      destruct (Nat.le_gt_cases k (length (partP s))) as [Hle|Hgt].
+      + rewrite firstn_app_le by exact Hle. intros HJk. split; [exact HJk|]. intros Hin.
+        assert (Hst : in_window t b (run (firstn k (partP s)) s) = false).
+        { apply early_list_keeps_stale; [apply Forall_firstn, early_partP|exact Ew]. }
+        rewrite Hst in Hin. discriminate.
+      + rewrite firstn_app_gt by lia. rewrite run_app. intros HJk.
+        destruct (complete_after_P s HJ) as [_ [Hc Hm]].
+        destruct (keeps_run (firstn (k - length (partP s)) partR) (run (partP s) s)
+                            (Forall_firstn _ _ _ (keeps_rec_steps _))) as [Hc' Hm'].
+        split; [exact HJk|]. intros _. split.
+        * intros n Hn. apply Hc', Hc, Hn.
+        * intros _. apply Hm', Hm.
+  Qed.
+
+  Lemma trusted_of_complete s : J s -> outs_current s -> md_full t b s = true -> trusted s.
+  Proof. intros HJ Hc Hm. split; [exact HJ|]. intros _. split; [exact Hc|intros _; exact Hm]. Qed.
 
 End Build.
 
@@ -588,67 +693,62 @@ Proof.
   - contradiction.
 Qed.
 
-(* ---- histories ---- *)
+(* ---- histories, full strength (since fix e0ea5c1: the metadata file is written with temp file + rename) ---- *)
 
-Lemma after_guarded_safe t b evs : forall s s', safe t b s -> after_guarded t b evs s = Some s' -> safe t b s'.
+Lemma after_trusted t b evs : forall s, trusted t b s -> trusted t b (after t b evs s).
 Proof.
-  induction evs as [|e r IH]; intros s s' Hs H; cbn [after_guarded] in H.
-  - injection H as <-. exact Hs.
-  - destruct (in_window t b s && decision_eqb (decide t (with_force b (fst e)) s) Rebuild) eqn:Eg; [discriminate|].
-    apply (IH _ _ (fun x => x) H) || (eapply IH; [|exact H]).
-    unfold step_event. destruct (decide t (with_force b (fst e)) s) eqn:Ed; try exact Hs.
-    cbn [decision_eqb] in Eg. rewrite andb_true_r in Eg.
-    rewrite crash_force. apply crash_safe; [exact (proj1 Hs)|exact Eg].
+  induction evs as [|e r IH]; intros s H; [exact H|].
+  unfold after. cbn [fold_left]. apply IH. unfold step_event.
+  destruct (decide t (with_force b (fst e)) s); try exact H.
+  rewrite crash_force. apply crash_trusted, H.
 Qed.
 
-Lemma after_guarded_after t b evs : forall s s', after_guarded t b evs s = Some s' -> s' = after t b evs s.
-Proof.
-  induction evs as [|e r IH]; intros s s' H; cbn [after_guarded] in H.
-  - injection H as <-. reflexivity.
-  - destruct (in_window t b s && _); [discriminate|]. unfold after. cbn [fold_left]. apply IH, H.
-Qed.
+Lemma histories_full t b s0 evs :
+  trusted t b s0 -> exists s', recover t b (after t b evs s0) = Some s' /\ good_end t b s'.
+Proof. intros H. apply recover_good, trusted_safe, after_trusted, H. Qed.
 
-(* every history of killed builds none of which starts inside the known window, then a normal build *)
-Lemma histories_partial t b s0 evs :
-  safe t b s0 -> after_guarded t b evs s0 <> None ->
-  exists s', recover t b (after t b evs s0) = Some s' /\ good_end t b s'.
-Proof.
-  intros Hs Hg. destruct (after_guarded t b evs s0) as [s|] eqn:E; [|congruence].
-  rewrite <- (after_guarded_after t b evs s0 s E). apply recover_good.
-  eapply after_guarded_safe; eassumption.
-Qed.
-
-(* one killed build, in the form of the anchored mechanism *)
-Lemma build_one t b s0 k :
-  safe t b s0 -> in_window t b s0 = false ->
-  safe t b (crash k t b s0)
+Lemma build_one_full t b s0 k :
+  trusted t b s0 ->
+  trusted t b (crash k t b s0)
   /\ exists s', recover t b (crash k t b s0) = Some s' /\ good_end t b s'.
 Proof.
-  intros Hs Hw. assert (H : safe t b (crash k t b s0)) by (apply crash_safe; [exact (proj1 Hs)|exact Hw]).
-  split; [exact H|apply recover_good, H].
+  intros H. pose proof (crash_trusted t b s0 k H) as Hk.
+  split; [exact Hk|apply recover_good, trusted_safe, Hk].
 Qed.
 
-(* ---- the window: concrete witnesses ---- *)
+Lemma trusted_empty t b : trusted t b empty_st.
+Proof.
+  split; [apply J_empty|]. intros H. exfalso. revert H.
+  unfold in_window, rec_matches, read_rec. destruct (declared t) as [|n r]; cbn.
+  - destruct (t_mod t); cbn; discriminate.
+  - discriminate.
+Qed.
+
+(* ---- the former witnesses (pre-fix defect classes), kept as regression examples ---- *)
 
 Definition wt : target := mkT [s "a"] true.                      (* one declared output and an output_dir *)
 Definition wcur : rec := mkRec 1 2 3 4 5.
 Definition wb : build := mkB [s "b"] (fun n => if str_eqb n (s "a") then 7 else 8)%N wcur false.
 Definition wdone : st := full wt wb empty_st.                     (* a completed build *)
 
-(* `plz build --rebuild` killed after os.Create(metadata): the next build fails *)
-Lemma forced_rebuild_window : recover wt wb (after wt wb [(true, 2)] wdone) = None.
-Proof. vm_compute. reflexivity. Qed.
-
-(* two kills of normal builds: the first after the record reached the declared output but not the discovered one,
-   the second after os.Create(metadata) of the rebuild that the post-build check then starts *)
-Lemma double_kill_window : recover wt wb (after wt wb [(false, 8); (false, 2)] empty_st) = None.
-Proof. vm_compute. reflexivity. Qed.
-
-Lemma wdone_safe : safe wt wb wdone.
+Lemma wdone_trusted : trusted wt wb wdone.
 Proof.
   destruct (full_complete wt wb empty_st (J_empty wb)) as [HJ [Hc Hm]].
-  apply safe_of_complete; assumption.
+  apply trusted_of_complete; assumption.
 Qed.
 
-Lemma empty_safe t b : safe t b empty_st.
-Proof. split; [apply J_empty|]. unfold decide, needs. cbn. exact I. Qed.
+Definition ends_clean (st' : option st) : bool :=
+  match st' with
+  | Some s' => list_eqb (option_eqb N.eqb) (visible wt wb s') [Some 7; Some 8]%N && md_full wt wb s'
+  | None => false
+  end.
+
+(* `plz build --rebuild` of the completed build killed after each number of steps (before the fix: k = 2 failed) *)
+Lemma forced_rebuild_recovers :
+  forallb (fun k => ends_clean (recover wt wb (after wt wb [(true, k)] wdone))) (seq 0 16) = true.
+Proof. vm_compute. reflexivity. Qed.
+
+(* two kills of normal builds in a row, every pair of step counts (before the fix: (8, 2) failed) *)
+Lemma double_kill_recovers :
+  forallb (fun k1 => forallb (fun k2 => ends_clean (recover wt wb (after wt wb [(false, k1); (false, k2)] empty_st))) (seq 0 16)) (seq 0 16) = true.
+Proof. vm_compute. reflexivity. Qed.
